@@ -227,6 +227,45 @@ theorem crs_specs_equal (a b : CrsObj) (hsys : a.info.sys = b.info.sys)
     · exact Or.inr (Or.inl ⟨h1, h2, hepsg h2.1 h2.2⟩)
     · exact Or.inr (Or.inr ⟨h1, h2, Or.inr hsys⟩)
 
+/-- **Code-less systems fall through to the text comparison.**  `_epsg` has three states —
+`some 0` not looked up, `some n` a code, `none` looked up and there is none — and the
+short-cut `if self._epsg and other._epsg` is about *truthiness*: when either side has no
+code, looked up or not, the EPSG comparison is skipped and two distinct objects are equal
+exactly when their strings are equal or pyproj says so.  In particular two different
+code-less systems never become equal by reading `.epsg` on both (`none = none` is not an
+agreement on a code). -/
+theorem eq_codeless_falls_through_to_str (a b : CrsObj) (hobj : a.obj ≠ b.obj)
+    (hc : a.epsg = none ∨ a.epsg = some 0 ∨ b.epsg = none ∨ b.epsg = some 0) :
+    crsEq a b = (a.str == b.str || a.info.sys == b.info.sys) := by
+  have ht : (truthy a.epsg && truthy b.epsg) = false := by
+    rcases hc with h | h | h | h <;> simp [h, truthy]
+  have ho : (a.obj == b.obj) = false := by simp [hobj]
+  unfold crsEq
+  rw [ho, ht]
+  by_cases hs : a.str = b.str <;> simp [hs]
+
+/-- the two looked-up-none instances of different systems and different strings stay unequal
+(witness for the state the seeded change C19-12 gets wrong) -/
+theorem eq_codeless_none_none_example :
+    let a : CrsObj := ⟨0, ⟨20, "P1", "W1", none⟩, "P1", none⟩
+    let b : CrsObj := ⟨1, ⟨21, "P2", "W2", none⟩, "P2", none⟩
+    crsEq a b = false := by
+  decide +kernel
+
+/-- through the state machine: reading `.epsg` on both of two code-less systems changes
+nothing about their equality -/
+def codelessWorld : World where
+  fromText := fun t =>
+    if t = "P1" then some ⟨20, "P1", "W1", none⟩
+    else if t = "P2" then some ⟨21, "P2", "W2", none⟩ else none
+  fromEpsg := fun _ => none
+
+theorem eq_codeless_stable_under_epsg_reads :
+    (run codelessWorld [.mk 0 (.str "P1") 0, .mk 1 (.str "P2") 0, .eq 0 1, .epsg 0, .eq 0 1, .epsg 1,
+        .eq 0 1, .eq 1 0]).2
+      = [.str "P1", .str "P2", .bool false, .epsg none, .bool false, .epsg none, .bool false, .bool false] := by
+  decide +kernel
+
 /-- Equal spellings hash equally (for every string hash `H`).  Partial: the full statement
 `crsEq a b = true → crsHash H a = crsHash H b` is false (K1, witness `crs_eq_hash_cex`,
 replayed by the harness under key `crs-eq-hash-differs`); the hypothesis `a.str = b.str`
